@@ -126,6 +126,14 @@ def gen(rng, tier):
             if case['indtype'] is None:
                 del case['indtype']
         out.append(case)
+    # on every run: nearly constant fields of magnitude 1e-30 (the low end of the stated range): neighbour differences of one
+    # or two float32 spacings, 2**-123 .. 2**-122 - the scale 2**(7 - NEXP) has to remain a finite float32
+    for _ in range(3 if tier == 'quick' else 60):
+        ny, nx = rng.randint(1, 4), rng.randint(2, 5)
+        base, sp = Fraction(2) ** -100, Fraction(2) ** -123
+        rows = [[base + sp * rng.choice([0, 1, 2]) for _ in range(nx)] for _ in range(ny)]
+        rows[0][1] = rows[0][0] + sp * rng.choice([1, 2])
+        out.append(dict(klass='tinyconst', rows=[[lib.show_rat(x) for x in r] for r in rows]))
     out += _file_cases(rng, 6 if tier == 'quick' else 100)
     out += _vardef_cases(rng, 40 if tier == 'quick' else 1500)
     return out
@@ -140,6 +148,8 @@ def _file_cases(rng, n):
         out.append(dict(kind='file', spec=c, rows=[[0, 1]], other=arlfmt.gen(rng) if rng.random() < 0.5 else None))
     # on every run: a lat/lon grid of two columns (or two rows), the smallest the property quantifies over
     out.append(dict(kind='file', spec=arlfmt.gen(rng, small=2), rows=[[0, 1]], other=None))
+    # on every run: a variable that only the lower levels carry
+    out.append(dict(kind='file', spec=arlfmt.gen(rng, partial=True), rows=[[0, 1]], other=None))
     return out
 
 
@@ -253,6 +263,11 @@ def _impl_file(case):
             os.remove(p2)
 
 
+def arlfmt_laykeys(c, li):
+    from .. import arlfmt
+    return arlfmt._laykeys(c, li)
+
+
 def _oracle_file(case, res):
     from datetime import datetime, timedelta
     c = case['spec']
@@ -266,6 +281,16 @@ def _oracle_file(case, res):
     want = [(t0 + timedelta(hours=o)).strftime('%Y%m%d%H') for o in c['offs']]
     if res['times'] != want:
         return 'times %s, encoded %s' % (res['times'], want)
+    if res.get('illformed'):
+        return 'the file as read is not well formed: %s' % res['illformed']
+    for key, ab in res.get('absent', {}).items():
+        if isinstance(ab, str):
+            return 'variable %s: %s' % (key, ab)
+        for ti, row in enumerate(ab):
+            for li, gone in enumerate(row):
+                if gone != (key not in arlfmt_laykeys(c, li + 1)):
+                    return 'variable %s at time %d, level %d: %s, the level %s the variable' % (
+                        key, ti, li + 1, 'missing' if gone else 'present', 'lists' if gone else 'does not list')
     for k, m in res['meta'].items():
         ti, li, key = k.split('|')
         ti, li = int(ti), int(li)
@@ -322,7 +347,7 @@ def to_line(case, res):
         return 'c20 layout 1 1 1'
     if case.get('kind') == 'file':
         c = case['spec']
-        nrec = sum(len(c['sfc']) if li == 0 else len(c['lay']) for li in range(len(c['levels'])))
+        nrec = sum(len(arlfmt_laykeys(c, li)) for li in range(len(c['levels'])))
         return 'c20 layout %d %d %d' % (c['nx'] * c['ny'], len(c['offs']), nrec)
     nexp = res.get('nexp', 0)
     return 'c20 pack %d %s' % (nexp, lib.show_rows(case['rows']))
